@@ -2,7 +2,7 @@
 frame / determinism (C18-F); the re-join functions and the parse-back clause are BOUNDED (C18-J, C18-B)."""
 import z3
 
-from vfkit import bounded, core, frame, model, sym
+from vfkit import bounded, core, frame, model, rewrite, sym
 from vfkit.check import Plan
 from vfkit.sym import EngineUnsupported, S, SymStr, ctx
 
@@ -187,9 +187,9 @@ def canary():
 
 def plan(tier, seed):
     pl = Plan("C18", "exploration")
-    pl.cases = chain_cases()
+    pl.cases = chain_cases() + join_cases()
     pl.canaries = [canary()]
-    n = 4 if tier == "quick" else 5
+    n = 4 if tier == "quick" else 6
 
     def pretty():
         return bounded.run_native("c18_pretty", {"max_tokens": n, "known": bounded.known_for("C18", "C18-B")})
@@ -198,14 +198,148 @@ def plan(tier, seed):
         return bounded.run_native("c18_join", {"depth": 3, "known": bounded.known_for("C18", "C18-J")})
     pl.bounded = [("C18-B/pretty text parses back to an equal tree", pretty),
                   ("C18-J/chunks re-joined with blanks only", joiner)]
-    pl.functions = ["luqum.pretty.Prettifier." + f for f in ("__init__", "_get_chains", "_count_chars", "_apply_stick", "_concatenates", "__call__")]
+    pl.functions = ["luqum.pretty.Prettifier." + f for f in ("__init__", "_get_chains", "_count_chars", "_apply_stick", "_lines", "_concatenates", "__call__")]
     pl.min_obligations = len(model.UNIVERSE) * 2
     pl.replay_builder = replay_builder
     pl.assumptions = c01.ASSUMPTIONS
     pl.trusted_base = c01.TRUSTED
     pl.lemmas = ["C18-C (proved per class, L-IND): the chunk sequence of a tree is its printed pieces (atoms printed by their own "
                  "__str__, field names with their colon, parentheses, operator words) in print order, nothing dropped or duplicated",
-                 "C18-J (BOUNDED): _concatenates / _apply_stick / _count_chars emit every chunk unchanged, in order, separated by blanks only",
+                 "C18-L (proved per level, recursion stubbed; induction over depth on paper): _lines / _apply_stick / _count_chars emit every chunk and every sub-level line verbatim, in order, separated by blanks / line breaks only",
+                 "C18-J (BOUNDED safety net): the same end to end on seeded nested chunk lists",
                  "C18-B (BOUNDED): the pretty text is accepted and parses to an equal tree (needs the parser on a constructed string)"]
-    pl.claim = ("chunking proved per class; re-joining and the parse-back clause decided by bounded stand-ins, hence exploration.")
+    pl.claim = ("chunking proved per class, re-joining proved per level; the parse-back clause is decided by a bounded stand-in, hence exploration.")
     return pl
+
+
+# ------------------------------------------------------------------------------------------------ C18-L  (one level of re-joining)
+def _level_shapes(maxlen=4):
+    """element sequences of one level: S = a chunk, B = a sub-level (recursive call), M = the stick marker (between two elements)"""
+    import itertools
+    out = []
+    for n in range(1, maxlen + 1):
+        for seq in itertools.product("SBM", repeat=n):
+            if seq[0] == "M" or seq[-1] == "M" or any(a == "M" and b == "M" for a, b in zip(seq, seq[1:])):
+                continue
+            out.append("".join(seq))
+    return out
+
+
+def _only_blanks(piece):
+    return isinstance(piece, str) and piece != "" and all(ch in " \n" for ch in piece)
+
+
+def _is_item_sequence(text, items):
+    """text (python str or SymStr built by the code) is: optional blanks, item 1, blanks, item 2, ... item n - every item (a z3 string
+    term) verbatim, in order, separated by non-empty runs of blanks / line breaks only.  Decided syntactically on the parts of the
+    term, which is exact because items are distinct uninterpreted constants"""
+    parts = text._parts() if isinstance(text, SymStr) else ([text] if text else [])
+    k = 0
+    sep_ok = True       # a separator (or the start) has just been seen
+    for p in parts:
+        if isinstance(p, str):
+            if not _only_blanks(p):
+                return False
+            sep_ok = True
+        else:
+            if k >= len(items) or not p.eq(items[k]) or not sep_ok:
+                return False
+            k += 1
+            sep_ok = False
+    return k == len(items)
+
+
+def join_cases():
+    """P (every chunk text, every max_len / level / char count - symbolic; indent 0, 2, 4): one level of Prettifier._lines with the
+    recursive call on sub-levels stubbed by the same contract, together with the real _apply_stick: the lines it returns, joined by
+    line breaks, are the level's chunks and the sub-levels' lines verbatim and in order, separated by blanks / line breaks only;
+    stuck elements end up on one line.  _count_chars carries every element over in order (its numbers only steer line breaking)."""
+    cases = []
+    for indent in (0, 2, 4):
+        for shape in _level_shapes():
+            def run(cx, indent=indent, shape=shape):
+                pp = PR.Prettifier(indent=indent, max_len=sym.SymInt(name="max_len"))
+                level = sym.SymInt(name="level")
+                cx.assume(level.t >= 0)
+                total = sym.SymInt(name="char_counts")
+                in_one = bool(cx.decide(z3.Bool(sym.fresh("in_one_liner"))))
+                items = []         # expected order of verbatim pieces
+                chain = []
+                sub_results = {}
+                for i, kind in enumerate(shape):
+                    if kind == "S":
+                        c = SymStr(name="chunk%d" % i)
+                        items.append(c.t)
+                        chain.append((c, sym.SymInt(name="n%d" % i)))
+                    elif kind == "M":
+                        chain.append((PR._STICK_MARKER, 0))
+                    else:
+                        sub = ["<sub%d>" % i]            # stands for a sub-level (only its identity matters)
+                        two = bool(cx.decide(z3.Bool(sym.fresh("sub%d_has_two_lines" % i))))
+                        lines = [SymStr(name="sub%d_line%d" % (i, j)) for j in range(2 if two else 1)]
+                        # induction hypothesis: a sub-level's lines are themselves item sequences; here each line is one opaque item
+                        sub_results[id(sub)] = PR._Block(lines)
+                        items.extend(x.t for x in lines)
+                        chain.append((sub, sym.SymInt(name="n%d" % i)))
+                real = PR.Prettifier._lines
+                calls = []
+
+                def stub(self, cwc, n, level=0, in_one_liner=False):
+                    if id(cwc) in sub_results:
+                        calls.append((id(cwc), level, in_one_liner))
+                        return sub_results[id(cwc)]
+                    return real(self, cwc, n, level, in_one_liner)
+                PR.Prettifier._lines = stub
+                try:
+                    res = real(pp, chain, total, level, in_one)
+                finally:
+                    PR.Prettifier._lines = real
+                key = "C18-L/_lines/indent%d/%s" % (indent, shape)
+                if not isinstance(res, PR._Block):
+                    return [(key + "/returns-a-block-of-lines", False)]
+                text = rewrite.vf_join("\n", list(res))
+                out = [(key + "/lines-are-the-chunks-and-sub-level-lines-verbatim-in-order-separated-by-blanks-only", _is_item_sequence(text, items)),
+                       (key + "/every-sub-level-formatted-exactly-once", sorted(c[0] for c in calls) == sorted(sub_results))]
+                # stuck neighbours share a line: the piece before and after a marker are on the same line
+                for i, kind in enumerate(shape):
+                    if kind == "M":
+                        left = chain[i - 1][0]
+                        right = chain[i + 1][0]
+                        lt = (sub_results[id(left)][-1] if isinstance(left, list) else left).t
+                        rt = (sub_results[id(right)][0] if isinstance(right, list) else right).t
+                        same_line = any(isinstance(ln, SymStr) and any((not isinstance(p, str)) and p.eq(lt) for p in ln._parts())
+                                        and any((not isinstance(p, str)) and p.eq(rt) for p in ln._parts()) for ln in res)
+                        out.append((key + "/stuck-elements-%d-share-a-line" % i, same_line))
+                return out
+            cases.append(core.Case("C18-L/_lines/%d/%s" % (indent, shape), run,
+                                   functions=["luqum.pretty.Prettifier._lines", "luqum.pretty.Prettifier._apply_stick", "luqum.pretty.Prettifier._concatenates"]))
+
+    for shape in ("S", "SS", "SB", "BSB", "SMS", "SMB", "B", "SSSS", "SBSMSS"):
+        def run_count(cx, shape=shape):
+            pp = PR.Prettifier()
+            elems, lens = [], []
+            for i, kind in enumerate(shape):
+                if kind == "S":
+                    c = SymStr(name="chunk%d" % i)
+                    elems.append(c)
+                    lens.append(z3.Length(c.t))
+                elif kind == "M":
+                    elems.append(PR._STICK_MARKER)
+                    lens.append(z3.IntVal(0))
+                else:
+                    a, b = SymStr(name="sub%da" % i), SymStr(name="sub%db" % i)
+                    elems.append([a, b])
+                    lens.append(z3.Length(a.t) + 1 + z3.Length(b.t))
+            with_counts, total = pp._count_chars(elems)
+            exp = sum(lens[1:], lens[0]) + (len(lens) - 1)
+            ok_struct = len(with_counts) == len(elems) and all((wc[0] is e) or isinstance(e, list) for wc, e in zip(with_counts, elems))
+            # the counts only steer where lines are broken (layout, not part of the property): what matters is that every element is
+            # carried over, in order, each with a count
+            def same(wc, e):
+                if isinstance(e, list):
+                    return isinstance(wc[0], list) and len(wc[0]) == len(e) and all(same(w2, e2) for w2, e2 in zip(wc[0], e))
+                return wc[0] is e
+            ok_struct = len(with_counts) == len(elems) and all(same(wc, e) for wc, e in zip(with_counts, elems))
+            return [("C18-L/_count_chars/%s/every-element-carried-over-in-order-with-a-count" % shape, ok_struct)]
+        cases.append(core.Case("C18-L/_count_chars/" + shape, run_count, functions=["luqum.pretty.Prettifier._count_chars"]))
+    return cases
